@@ -64,6 +64,15 @@ theorem create_failed_cond_no_effect (a : CreateArgs R) (flt : Option Addr) (s :
       (exec (createRollback a true) flt (run (createCond a) flt s).2).st.usage = s.usage :=
   createCond_failure_restores a flt { st := s } ⟨h, rfl, rfl⟩
 
+/-- **create, the whole call incl. deferred WAL commits and marker deletions**: if every message of
+the stream reports failure (the single error message of a failing condition step, or all instances
+failed) the call changed nothing: same nodes, capacity, usage, records; no new container. -/
+theorem create_failed_no_effect (a : CreateArgs R) (hnd : (a.plan.map (·.1)).Nodup) (flt : Option Addr)
+    (s : State R) (h : Inv s) :
+    okIds (run (create a) flt s).2.msgs = [] →
+      AbsEq s (run (create a) flt s).2.st ∧ ∀ c ∈ (run (create a) flt s).2.st.cts, ∃ c0 ∈ s.cts, c0.id = c.id :=
+  create_all_failed a hnd flt s h
+
 /-- **add-node**: whatever single step fails (engine info, plugin AddNode, store AddNode) a failed
 call leaves nodes, plugin records, capacity, usage and workloads as they were (the plugin record
 created in the condition step is removed again). -/
